@@ -8,10 +8,17 @@ checks, na = [], []
 for p in props:
     pid = p["id"]
     path = os.path.join(VERIF, "harness", "props", pid.lower() + ".py")
-    if not os.path.exists(path):
-        na.append({"property_id": pid, "reason": "check not built yet in this round (planned in DESIGN.md §6); no claim is made"})
+    from harness import leanspec
+    has_lean = False
+    if os.path.exists(path):
+        m = importlib.import_module("harness.props." + pid.lower())
+        has_lean = hasattr(m, "LEAN") or pid in leanspec.SPEC
+    if not has_lean:
+        na.append({"property_id": pid, "reason": "no Lean theorems tied to the code for this property yet (planned in DESIGN.md §6); no claim is made"})
         continue
-    m = importlib.import_module("harness.props." + pid.lower())
+    for k, v in leanspec.SPEC.get(pid, {}).items():
+        if not hasattr(m, k):
+            setattr(m, k, v)
     checks.append({
         "property_id": pid,
         "quick_cmd": "./check %s --tier quick" % pid,
